@@ -58,7 +58,7 @@ Proof.
   - left. reflexivity.
   - left. destruct (is_idle c s); [|reflexivity]. destruct (id_lookup (s_ids s) i) as [ser|]; [|reflexivity].
     destruct (getjob (s_jobs s) ser) as [j|]; [|reflexivity].
-    destruct (j_done j && negb (done_pending ser (s_hub s))); [destruct (j_drop j && id_is (s_ids s) (j_id j) ser)|]; reflexivity.
+    destruct (j_done j); [destruct (j_drop j && id_is (s_ids s) (j_id j) ser)|]; reflexivity.
   - left. reflexivity.
   - left. destruct (id_lookup (s_ids s) i); reflexivity.
   - left. reflexivity.
